@@ -212,3 +212,17 @@ def arch_label(case):
     if case.get("unitaries"):
         lab.append("user_unitaries")
     return lab
+
+
+def divergence_guard():
+    """(callback, flag): stops a fit() whose parameters became non-finite.  Zero-probability training rows make the
+    NLL gradient infinite (1/p); what the library does after that is outside every property, so such runs are excluded
+    and counted instead of being judged."""
+    from qucumber.callbacks import LambdaCallback
+    flag = [False]
+
+    def on_be(s, e, b):
+        if not all(bool(torch.isfinite(p).all()) for net in s.networks for p in getattr(s, net).parameters()):
+            flag[0] = True
+            s.stop_training = True
+    return LambdaCallback(on_batch_end=on_be), flag
